@@ -50,6 +50,12 @@ class VR(CallableModel):
         # one estimate per leading sample index: average them
         return log_w_mean.mean(-1) / (1.0 - self.alpha)
 
+    def __call__(self, *args, **kwargs) -> torch.Tensor:
+        # a stochastic objective is never answered from the CallableModel cache:
+        # every request draws fresh samples with the requested sample shape
+        self.lp_needs_update = True
+        return super().__call__(*args, **kwargs)
+
     def handle_parameter_changed(self, variable, index, event):
         pass
 
